@@ -15,6 +15,8 @@ import (
 
 func init() {
 	register(&PropertyCheck{ID: "C18", Level: "proof", Run: checkC18, Canaries: []Canary{
+		{Name: "collecting-dumper-with-stars", Silent: true, Edits: []Edit{{"connect.go", "\t\"time\"\n)\n\n// If we want to be able to handle large packets each must implement\n// io.ReaderFrom This allows a client decide if it should read in all\n// the data in one slice and wrap it in a reader or not.\n\n// The other direction is also important to be able to write out large\n// packets without loading everything into memory each packet must\n// implement io.WriterTo.\n\nvar mqtt5 = []byte(\"MQTT\")\n\n// NewConnect returns an empty MQTT v5 connect packet.\nfunc NewConnect() *Connect {\n\treturn &Connect{\n\t\tfixed:           bits(CONNECT),\n\t\tprotocolName:    mqtt5,\n\t\tprotocolVersion: 5,\n\t}\n}\n\ntype Connect struct {\n\t// Fields are kept hidden so\n\t// - we can optimize memory storage without affecting the API\n\t// - users don't have to handle dependencies between fields and flags\n\n\t// order is optimized for memory padding\n\tfixed           bits\n\tflags           bits\n\tprotocolVersion wuint8\n\tkeepAlive       wuint16\n\treceiveMax      wuint16\n\n\tsessionExpiryInterval wuint32\n\tmaxPacketSize         wuint32\n\n\twillDelayInterval wuint32\n\n\ttopicAliasMax       wuint16\n\trequestResponseInfo wbool\n\trequestProblemInfo  wbool\n\n\tprotocolName wstring\n\tclientID     wstring\n\tUserProperties\n\tauthMethod wstring\n\tauthData   bindata\n\n\tusername wstring\n\tpassword bindata\n\n\twill        *Publish\n\twillPayload bindata // as the one in Publish.payload is raw\n\t// what does it mean, raw?\n}\n\n// Connect fields are exposed using methods to simplify the type\n// conversion.\n\n// SetWill sets the will message. The Server delays publishing the\n// Client\u2019s Will Message until the Will Delay Interval has passed or\n// the Session ends, whichever happens first.\nfunc (p *Connect) SetWill(will *Publish) {\n\tp.will = will\n\tp.flags.toggle(WillFlag, true)\n\tp.flags.toggle(WillRetain, will.Retain())\n\tp.willPayload = bindata(will.payload)\n\tp.setWillQoS(will.QoS())\n}\n\nfunc (p *Connect) SetWillDelayInterval(delayInterval uint32) {\n\tp.willDelayInterval = wuint32(delayInterval)\n}\nfunc (p *Connect) WillDelayInterval() uint32 {\n\treturn uint32(p.willDelayInterval)\n}\n\n// Will returns the will publish message.\nfunc (p *Connect) Will() *Publish { return p.will }\n\nfunc (p *Connect) HasFlag(v byte) bool { return p.flags.Has(v) }\n\nfunc (p *Connect) SetCleanStart(v bool) { p.flags.toggle(CleanStart, v) }\nfunc (p *Connect) CleanStart() bool     { return p.flags.Has(CleanStart) }\n\nfunc (p *Connect) SetProtocolVersion(v uint8) { p.protocolVersion = wuint8(v) }\nfunc (p *Connect) ProtocolVersion() uint8     { return uint8(p.protocolVersion) }\n\nfunc (p *Connect) SetProtocolName(v string) { p.protocolName = wstring(v) }\nfunc (p *Connect) ProtocolName() string     { return string(p.protocolName) }\n\nfunc (p *Connect) SetClientID(v string) { p.clientID = wstring(v) }\nfunc (p *Connect) ClientID() string     { return string(p.clientID) }\n\nfunc (p *Connect) SetKeepAlive(v uint16) { p.keepAlive = wuint16(v) }\nfunc (p *Connect) KeepAlive() uint16     { return uint16(p.keepAlive) }\n\nfunc (p *Connect) setWillQoS(v uint8) {\n\tp.flags &= bits(^(WillQoS2 | WillQoS1)) // reset\n\tp.flags.toggle(v<<3, v < 3)\n}\nfunc (p *Connect) willQoS() uint8 {\n\treturn (uint8(p.flags) & (WillQoS2 | WillQoS1)) >> 3\n}\n\nfunc (p *Connect) SetSessionExpiryInterval(v uint32) {\n\tp.sessionExpiryInterval = wuint32(v)\n}\nfunc (p *Connect) SessionExpiryInterval() uint32 {\n\treturn uint32(p.sessionExpiryInterval)\n}\n\nfunc (p *Connect) SetReceiveMax(v uint16) { p.receiveMax = wuint16(v) }\nfunc (p *Connect) ReceiveMax() uint16     { return uint16(p.receiveMax) }\n\nfunc (p *Connect) SetMaxPacketSize(v uint32) { p.maxPacketSize = wuint32(v) }\nfunc (p *Connect) MaxPacketSize() uint32     { return uint32(p.maxPacketSize) }\n\n// This value indicates the highest value that the Client will accept\n// as a Topic Alias sent by the Server. The Client uses this value to\n// limit the number of Topic Aliases that it is willing to hold on\n// this Connection.\nfunc (p *Connect) SetTopicAliasMax(v uint16) {\n\tp.topicAliasMax = wuint16(v)\n}\nfunc (p *Connect) TopicAliasMax() uint16 { return uint16(p.topicAliasMax) }\n\n// The Client uses this value to request the Server to return Response\n// Information in the CONNACK\nfunc (p *Connect) SetRequestResponseInfo(v bool) {\n\tp.requestResponseInfo = wbool(v)\n}\nfunc (p *Connect) RequestResponseInfo() bool {\n\treturn bool(p.requestResponseInfo)\n}\n\n// The Client uses this value to indicate whether the ReasonString String or\n// User Properties are sent in the case of failures.\nfunc (p *Connect) SetRequestProblemInfo(v bool) {\n\tp.requestProblemInfo = wbool(v)\n}\nfunc (p *Connect) RequestProblemInfo() bool {\n\treturn bool(p.requestProblemInfo)\n}\n\nfunc (p *Connect) appendWillProperty(prop UserProp) {\n\tp.will.UserProperties = append(p.will.UserProperties, prop)\n}\n\nfunc (p *Connect) SetAuthMethod(v string) { p.authMethod = wstring(v) }\nfunc (p *Connect) AuthMethod() string     { return string(p.authMethod) }\n\nfunc (p *Connect) SetAuthData(v []byte) { p.authData = v }\nfunc (p *Connect) AuthData() []byte     { return p.authData }\n\nfunc (p *Connect) SetUsername(v string) {\n\tp.username = wstring(v)\n\tif len(v) == 0 {\n\t\tp.username = nil\n\t}\n\tp.flags.toggle(UsernameFlag, len(p.username) > 0)\n\n}\nfunc (p *Connect) Username() string { return string(p.username) }\n\nfunc (p *Connect) SetPassword(v []byte) {\n\tp.password = v\n\tp.flags.toggle(PasswordFlag, len(p.password) > 0)\n}\nfunc (p *Connect) Password() []byte { return p.password }\n\n// String returns a short string describing the connect packet.\nfunc (p *Connect) String() string {\n\treturn fmt.Sprintf(\"%s %s %s%v %s %s %v bytes\",\n\t\tfirstByte(p.fixed).String(), connectFlags(p.flags),\n\t\tp.protocolName,\n\t\tp.protocolVersion,\n\t\tp.ClientID(),\n\t\ttime.Duration(p.keepAlive)*time.Second,\n\t\tp.fill(_LEN, 0),\n\t)\n}\n\nfunc (p *Connect) dump(w io.Writer) {\n\tfmt.Fprintf(w, \"AuthData: %v\\n\", p.AuthData())\n\tfmt.Fprintf(w, \"AuthMethod: %v\\n\", p.AuthMethod())\n\tfmt.Fprintf(w, \"CleanStart: %v\\n\", p.CleanStart())\n\tfmt.Fprintf(w, \"ClientID: %v\\n\", p.ClientID())\n\tfmt.Fprintf(w, \"KeepAlive: %v\\n\", p.KeepAlive())\n\tfmt.Fprintf(w, \"MaxPacketSize: %v\\n\", p.MaxPacketSize())\n\tfmt.Fprintf(w, \"Password: %q\\n\", stars(len(p.Password())))\n\tfmt.Fprintf(w, \"ProtocolName: %v\\n\", p.ProtocolName())\n\tfmt.Fprintf(w, \"ProtocolVersion: %v\\n\", p.ProtocolVersion())\n\tfmt.Fprintf(w, \"ReceiveMax: %v\\n\", p.ReceiveMax())\n\tfmt.Fprintf(w, \"RequestProblemInfo: %v\\n\", p.RequestProblemInfo())\n\tfmt.Fprintf(w, \"RequestResponseInfo: %v\\n\", p.RequestResponseInfo())\n\tfmt.Fprintf(w, \"SessionExpiryInterval: %v\\n\", p.SessionExpiryInterval())\n\tfmt.Fprintf(w, \"TopicAliasMax: %v\\n\", p.TopicAliasMax())\n\tfmt.Fprintf(w, \"Username: %v\\n\", stars(len(p.Username())))\n\n\tif p.will != nil {\n\t\tfmt.Fprintln(w, \"Will\")\n\t\tp.will.dump(w)\n\t}\n\n\tp.UserProperties.dump(w)\n}\n\nfunc stars(v int) string {\n\tif v == 0 {\n\t\treturn \"\"\n\t}\n\treturn \"*********\"", "\t\"strconv\"\n\t\"strings\"\n\t\"time\"\n)\n\n// If we want to be able to handle large packets each must implement\n// io.ReaderFrom This allows a client decide if it should read in all\n// the data in one slice and wrap it in a reader or not.\n\n// The other direction is also important to be able to write out large\n// packets without loading everything into memory each packet must\n// implement io.WriterTo.\n\nvar mqtt5 = []byte(\"MQTT\")\n\n// NewConnect returns an empty MQTT v5 connect packet.\nfunc NewConnect() *Connect {\n\treturn &Connect{\n\t\tfixed:           bits(CONNECT),\n\t\tprotocolName:    mqtt5,\n\t\tprotocolVersion: 5,\n\t}\n}\n\ntype Connect struct {\n\t// Fields are kept hidden so\n\t// - we can optimize memory storage without affecting the API\n\t// - users don't have to handle dependencies between fields and flags\n\n\t// order is optimized for memory padding\n\tfixed           bits\n\tflags           bits\n\tprotocolVersion wuint8\n\tkeepAlive       wuint16\n\treceiveMax      wuint16\n\n\tsessionExpiryInterval wuint32\n\tmaxPacketSize         wuint32\n\n\twillDelayInterval wuint32\n\n\ttopicAliasMax       wuint16\n\trequestResponseInfo wbool\n\trequestProblemInfo  wbool\n\n\tprotocolName wstring\n\tclientID     wstring\n\tUserProperties\n\tauthMethod wstring\n\tauthData   bindata\n\n\tusername wstring\n\tpassword bindata\n\n\twill        *Publish\n\twillPayload bindata // as the one in Publish.payload is raw\n\t// what does it mean, raw?\n}\n\n// Connect fields are exposed using methods to simplify the type\n// conversion.\n\n// SetWill sets the will message. The Server delays publishing the\n// Client\u2019s Will Message until the Will Delay Interval has passed or\n// the Session ends, whichever happens first.\nfunc (p *Connect) SetWill(will *Publish) {\n\tp.will = will\n\tp.flags.toggle(WillFlag, true)\n\tp.flags.toggle(WillRetain, will.Retain())\n\tp.willPayload = bindata(will.payload)\n\tp.setWillQoS(will.QoS())\n}\n\nfunc (p *Connect) SetWillDelayInterval(delayInterval uint32) {\n\tp.willDelayInterval = wuint32(delayInterval)\n}\nfunc (p *Connect) WillDelayInterval() uint32 {\n\treturn uint32(p.willDelayInterval)\n}\n\n// Will returns the will publish message.\nfunc (p *Connect) Will() *Publish { return p.will }\n\nfunc (p *Connect) HasFlag(v byte) bool { return p.flags.Has(v) }\n\nfunc (p *Connect) SetCleanStart(v bool) { p.flags.toggle(CleanStart, v) }\nfunc (p *Connect) CleanStart() bool     { return p.flags.Has(CleanStart) }\n\nfunc (p *Connect) SetProtocolVersion(v uint8) { p.protocolVersion = wuint8(v) }\nfunc (p *Connect) ProtocolVersion() uint8     { return uint8(p.protocolVersion) }\n\nfunc (p *Connect) SetProtocolName(v string) { p.protocolName = wstring(v) }\nfunc (p *Connect) ProtocolName() string     { return string(p.protocolName) }\n\nfunc (p *Connect) SetClientID(v string) { p.clientID = wstring(v) }\nfunc (p *Connect) ClientID() string     { return string(p.clientID) }\n\nfunc (p *Connect) SetKeepAlive(v uint16) { p.keepAlive = wuint16(v) }\nfunc (p *Connect) KeepAlive() uint16     { return uint16(p.keepAlive) }\n\nfunc (p *Connect) setWillQoS(v uint8) {\n\tp.flags &= bits(^(WillQoS2 | WillQoS1)) // reset\n\tp.flags.toggle(v<<3, v < 3)\n}\nfunc (p *Connect) willQoS() uint8 {\n\treturn (uint8(p.flags) & (WillQoS2 | WillQoS1)) >> 3\n}\n\nfunc (p *Connect) SetSessionExpiryInterval(v uint32) {\n\tp.sessionExpiryInterval = wuint32(v)\n}\nfunc (p *Connect) SessionExpiryInterval() uint32 {\n\treturn uint32(p.sessionExpiryInterval)\n}\n\nfunc (p *Connect) SetReceiveMax(v uint16) { p.receiveMax = wuint16(v) }\nfunc (p *Connect) ReceiveMax() uint16     { return uint16(p.receiveMax) }\n\nfunc (p *Connect) SetMaxPacketSize(v uint32) { p.maxPacketSize = wuint32(v) }\nfunc (p *Connect) MaxPacketSize() uint32     { return uint32(p.maxPacketSize) }\n\n// This value indicates the highest value that the Client will accept\n// as a Topic Alias sent by the Server. The Client uses this value to\n// limit the number of Topic Aliases that it is willing to hold on\n// this Connection.\nfunc (p *Connect) SetTopicAliasMax(v uint16) {\n\tp.topicAliasMax = wuint16(v)\n}\nfunc (p *Connect) TopicAliasMax() uint16 { return uint16(p.topicAliasMax) }\n\n// The Client uses this value to request the Server to return Response\n// Information in the CONNACK\nfunc (p *Connect) SetRequestResponseInfo(v bool) {\n\tp.requestResponseInfo = wbool(v)\n}\nfunc (p *Connect) RequestResponseInfo() bool {\n\treturn bool(p.requestResponseInfo)\n}\n\n// The Client uses this value to indicate whether the ReasonString String or\n// User Properties are sent in the case of failures.\nfunc (p *Connect) SetRequestProblemInfo(v bool) {\n\tp.requestProblemInfo = wbool(v)\n}\nfunc (p *Connect) RequestProblemInfo() bool {\n\treturn bool(p.requestProblemInfo)\n}\n\nfunc (p *Connect) appendWillProperty(prop UserProp) {\n\tp.will.UserProperties = append(p.will.UserProperties, prop)\n}\n\nfunc (p *Connect) SetAuthMethod(v string) { p.authMethod = wstring(v) }\nfunc (p *Connect) AuthMethod() string     { return string(p.authMethod) }\n\nfunc (p *Connect) SetAuthData(v []byte) { p.authData = v }\nfunc (p *Connect) AuthData() []byte     { return p.authData }\n\nfunc (p *Connect) SetUsername(v string) {\n\tp.username = wstring(v)\n\tif len(v) == 0 {\n\t\tp.username = nil\n\t}\n\tp.flags.toggle(UsernameFlag, len(p.username) > 0)\n\n}\nfunc (p *Connect) Username() string { return string(p.username) }\n\nfunc (p *Connect) SetPassword(v []byte) {\n\tp.password = v\n\tp.flags.toggle(PasswordFlag, len(p.password) > 0)\n}\nfunc (p *Connect) Password() []byte { return p.password }\n\n// String returns a short string describing the connect packet.\nfunc (p *Connect) String() string {\n\treturn fmt.Sprintf(\"%s %s %s%v %s %s %v bytes\",\n\t\tfirstByte(p.fixed).String(), connectFlags(p.flags),\n\t\tp.protocolName,\n\t\tp.protocolVersion,\n\t\tp.ClientID(),\n\t\ttime.Duration(p.keepAlive)*time.Second,\n\t\tp.fill(_LEN, 0),\n\t)\n}\n\nfunc (p *Connect) dump(w io.Writer) {\n\t// collect the fields and hand them to w in one Write\n\td := &dumper{w: w}\n\td.val(\"AuthData\", p.AuthData())\n\td.val(\"AuthMethod\", p.AuthMethod())\n\td.val(\"CleanStart\", p.CleanStart())\n\td.val(\"ClientID\", p.ClientID())\n\td.val(\"KeepAlive\", p.KeepAlive())\n\td.val(\"MaxPacketSize\", p.MaxPacketSize())\n\td.quoted(\"Password\", masked(string(p.Password())))\n\td.val(\"ProtocolName\", p.ProtocolName())\n\td.val(\"ProtocolVersion\", p.ProtocolVersion())\n\td.val(\"ReceiveMax\", p.ReceiveMax())\n\td.val(\"RequestProblemInfo\", p.RequestProblemInfo())\n\td.val(\"RequestResponseInfo\", p.RequestResponseInfo())\n\td.val(\"SessionExpiryInterval\", p.SessionExpiryInterval())\n\td.val(\"TopicAliasMax\", p.TopicAliasMax())\n\td.text(\"Username\", masked(p.Username()))\n\td.flush()\n\n\tif p.will != nil {\n\t\tfmt.Fprintln(w, \"Will\")\n\t\tp.will.dump(w)\n\t}\n\n\tp.UserProperties.dump(w)\n}\n\n// masked hides v, the first letter is kept as a hint for whoever\n// reads the log.\nfunc masked(v string) string {\n\tif len(v) == 0 {\n\t\treturn \"\"\n\t}\n\treturn \"*********\"\n}\n\n// dumper collects named fields as lines, flush writes them with one\n// call to Write.\ntype dumper struct {\n\tw  io.Writer\n\tsb strings.Builder\n}\n\n// val adds the field using the default format of v.\nfunc (d *dumper) val(name string, v interface{}) {\n\tfmt.Fprintf(&d.sb, \"%s: %v\\n\", name, v)\n}\n\n// text adds the field as is.\nfunc (d *dumper) text(name, v string) {\n\td.sb.WriteString(name)\n\td.sb.WriteString(\": \")\n\td.sb.WriteString(v)\n\td.sb.WriteByte('\\n')\n}\n\n// quoted adds the field as a double quoted string.\nfunc (d *dumper) quoted(name, v string) {\n\td.text(name, strconv.Quote(v))\n}\n\nfunc (d *dumper) flush() {\n\tfmt.Fprint(d.w, d.sb.String())\n\td.sb.Reset()"}}},
+		{Name: "adv5-C2-first-letter-through-a-collecting-dumper", Rule: "R18.1", Where: "(*dumper).flush", Edits: []Edit{{"connect.go", "\t\"time\"\n)\n\n// If we want to be able to handle large packets each must implement\n// io.ReaderFrom This allows a client decide if it should read in all\n// the data in one slice and wrap it in a reader or not.\n\n// The other direction is also important to be able to write out large\n// packets without loading everything into memory each packet must\n// implement io.WriterTo.\n\nvar mqtt5 = []byte(\"MQTT\")\n\n// NewConnect returns an empty MQTT v5 connect packet.\nfunc NewConnect() *Connect {\n\treturn &Connect{\n\t\tfixed:           bits(CONNECT),\n\t\tprotocolName:    mqtt5,\n\t\tprotocolVersion: 5,\n\t}\n}\n\ntype Connect struct {\n\t// Fields are kept hidden so\n\t// - we can optimize memory storage without affecting the API\n\t// - users don't have to handle dependencies between fields and flags\n\n\t// order is optimized for memory padding\n\tfixed           bits\n\tflags           bits\n\tprotocolVersion wuint8\n\tkeepAlive       wuint16\n\treceiveMax      wuint16\n\n\tsessionExpiryInterval wuint32\n\tmaxPacketSize         wuint32\n\n\twillDelayInterval wuint32\n\n\ttopicAliasMax       wuint16\n\trequestResponseInfo wbool\n\trequestProblemInfo  wbool\n\n\tprotocolName wstring\n\tclientID     wstring\n\tUserProperties\n\tauthMethod wstring\n\tauthData   bindata\n\n\tusername wstring\n\tpassword bindata\n\n\twill        *Publish\n\twillPayload bindata // as the one in Publish.payload is raw\n\t// what does it mean, raw?\n}\n\n// Connect fields are exposed using methods to simplify the type\n// conversion.\n\n// SetWill sets the will message. The Server delays publishing the\n// Client\u2019s Will Message until the Will Delay Interval has passed or\n// the Session ends, whichever happens first.\nfunc (p *Connect) SetWill(will *Publish) {\n\tp.will = will\n\tp.flags.toggle(WillFlag, true)\n\tp.flags.toggle(WillRetain, will.Retain())\n\tp.willPayload = bindata(will.payload)\n\tp.setWillQoS(will.QoS())\n}\n\nfunc (p *Connect) SetWillDelayInterval(delayInterval uint32) {\n\tp.willDelayInterval = wuint32(delayInterval)\n}\nfunc (p *Connect) WillDelayInterval() uint32 {\n\treturn uint32(p.willDelayInterval)\n}\n\n// Will returns the will publish message.\nfunc (p *Connect) Will() *Publish { return p.will }\n\nfunc (p *Connect) HasFlag(v byte) bool { return p.flags.Has(v) }\n\nfunc (p *Connect) SetCleanStart(v bool) { p.flags.toggle(CleanStart, v) }\nfunc (p *Connect) CleanStart() bool     { return p.flags.Has(CleanStart) }\n\nfunc (p *Connect) SetProtocolVersion(v uint8) { p.protocolVersion = wuint8(v) }\nfunc (p *Connect) ProtocolVersion() uint8     { return uint8(p.protocolVersion) }\n\nfunc (p *Connect) SetProtocolName(v string) { p.protocolName = wstring(v) }\nfunc (p *Connect) ProtocolName() string     { return string(p.protocolName) }\n\nfunc (p *Connect) SetClientID(v string) { p.clientID = wstring(v) }\nfunc (p *Connect) ClientID() string     { return string(p.clientID) }\n\nfunc (p *Connect) SetKeepAlive(v uint16) { p.keepAlive = wuint16(v) }\nfunc (p *Connect) KeepAlive() uint16     { return uint16(p.keepAlive) }\n\nfunc (p *Connect) setWillQoS(v uint8) {\n\tp.flags &= bits(^(WillQoS2 | WillQoS1)) // reset\n\tp.flags.toggle(v<<3, v < 3)\n}\nfunc (p *Connect) willQoS() uint8 {\n\treturn (uint8(p.flags) & (WillQoS2 | WillQoS1)) >> 3\n}\n\nfunc (p *Connect) SetSessionExpiryInterval(v uint32) {\n\tp.sessionExpiryInterval = wuint32(v)\n}\nfunc (p *Connect) SessionExpiryInterval() uint32 {\n\treturn uint32(p.sessionExpiryInterval)\n}\n\nfunc (p *Connect) SetReceiveMax(v uint16) { p.receiveMax = wuint16(v) }\nfunc (p *Connect) ReceiveMax() uint16     { return uint16(p.receiveMax) }\n\nfunc (p *Connect) SetMaxPacketSize(v uint32) { p.maxPacketSize = wuint32(v) }\nfunc (p *Connect) MaxPacketSize() uint32     { return uint32(p.maxPacketSize) }\n\n// This value indicates the highest value that the Client will accept\n// as a Topic Alias sent by the Server. The Client uses this value to\n// limit the number of Topic Aliases that it is willing to hold on\n// this Connection.\nfunc (p *Connect) SetTopicAliasMax(v uint16) {\n\tp.topicAliasMax = wuint16(v)\n}\nfunc (p *Connect) TopicAliasMax() uint16 { return uint16(p.topicAliasMax) }\n\n// The Client uses this value to request the Server to return Response\n// Information in the CONNACK\nfunc (p *Connect) SetRequestResponseInfo(v bool) {\n\tp.requestResponseInfo = wbool(v)\n}\nfunc (p *Connect) RequestResponseInfo() bool {\n\treturn bool(p.requestResponseInfo)\n}\n\n// The Client uses this value to indicate whether the ReasonString String or\n// User Properties are sent in the case of failures.\nfunc (p *Connect) SetRequestProblemInfo(v bool) {\n\tp.requestProblemInfo = wbool(v)\n}\nfunc (p *Connect) RequestProblemInfo() bool {\n\treturn bool(p.requestProblemInfo)\n}\n\nfunc (p *Connect) appendWillProperty(prop UserProp) {\n\tp.will.UserProperties = append(p.will.UserProperties, prop)\n}\n\nfunc (p *Connect) SetAuthMethod(v string) { p.authMethod = wstring(v) }\nfunc (p *Connect) AuthMethod() string     { return string(p.authMethod) }\n\nfunc (p *Connect) SetAuthData(v []byte) { p.authData = v }\nfunc (p *Connect) AuthData() []byte     { return p.authData }\n\nfunc (p *Connect) SetUsername(v string) {\n\tp.username = wstring(v)\n\tif len(v) == 0 {\n\t\tp.username = nil\n\t}\n\tp.flags.toggle(UsernameFlag, len(p.username) > 0)\n\n}\nfunc (p *Connect) Username() string { return string(p.username) }\n\nfunc (p *Connect) SetPassword(v []byte) {\n\tp.password = v\n\tp.flags.toggle(PasswordFlag, len(p.password) > 0)\n}\nfunc (p *Connect) Password() []byte { return p.password }\n\n// String returns a short string describing the connect packet.\nfunc (p *Connect) String() string {\n\treturn fmt.Sprintf(\"%s %s %s%v %s %s %v bytes\",\n\t\tfirstByte(p.fixed).String(), connectFlags(p.flags),\n\t\tp.protocolName,\n\t\tp.protocolVersion,\n\t\tp.ClientID(),\n\t\ttime.Duration(p.keepAlive)*time.Second,\n\t\tp.fill(_LEN, 0),\n\t)\n}\n\nfunc (p *Connect) dump(w io.Writer) {\n\tfmt.Fprintf(w, \"AuthData: %v\\n\", p.AuthData())\n\tfmt.Fprintf(w, \"AuthMethod: %v\\n\", p.AuthMethod())\n\tfmt.Fprintf(w, \"CleanStart: %v\\n\", p.CleanStart())\n\tfmt.Fprintf(w, \"ClientID: %v\\n\", p.ClientID())\n\tfmt.Fprintf(w, \"KeepAlive: %v\\n\", p.KeepAlive())\n\tfmt.Fprintf(w, \"MaxPacketSize: %v\\n\", p.MaxPacketSize())\n\tfmt.Fprintf(w, \"Password: %q\\n\", stars(len(p.Password())))\n\tfmt.Fprintf(w, \"ProtocolName: %v\\n\", p.ProtocolName())\n\tfmt.Fprintf(w, \"ProtocolVersion: %v\\n\", p.ProtocolVersion())\n\tfmt.Fprintf(w, \"ReceiveMax: %v\\n\", p.ReceiveMax())\n\tfmt.Fprintf(w, \"RequestProblemInfo: %v\\n\", p.RequestProblemInfo())\n\tfmt.Fprintf(w, \"RequestResponseInfo: %v\\n\", p.RequestResponseInfo())\n\tfmt.Fprintf(w, \"SessionExpiryInterval: %v\\n\", p.SessionExpiryInterval())\n\tfmt.Fprintf(w, \"TopicAliasMax: %v\\n\", p.TopicAliasMax())\n\tfmt.Fprintf(w, \"Username: %v\\n\", stars(len(p.Username())))\n\n\tif p.will != nil {\n\t\tfmt.Fprintln(w, \"Will\")\n\t\tp.will.dump(w)\n\t}\n\n\tp.UserProperties.dump(w)\n}\n\nfunc stars(v int) string {\n\tif v == 0 {\n\t\treturn \"\"\n\t}\n\treturn \"*********\"", "\t\"strconv\"\n\t\"strings\"\n\t\"time\"\n)\n\n// If we want to be able to handle large packets each must implement\n// io.ReaderFrom This allows a client decide if it should read in all\n// the data in one slice and wrap it in a reader or not.\n\n// The other direction is also important to be able to write out large\n// packets without loading everything into memory each packet must\n// implement io.WriterTo.\n\nvar mqtt5 = []byte(\"MQTT\")\n\n// NewConnect returns an empty MQTT v5 connect packet.\nfunc NewConnect() *Connect {\n\treturn &Connect{\n\t\tfixed:           bits(CONNECT),\n\t\tprotocolName:    mqtt5,\n\t\tprotocolVersion: 5,\n\t}\n}\n\ntype Connect struct {\n\t// Fields are kept hidden so\n\t// - we can optimize memory storage without affecting the API\n\t// - users don't have to handle dependencies between fields and flags\n\n\t// order is optimized for memory padding\n\tfixed           bits\n\tflags           bits\n\tprotocolVersion wuint8\n\tkeepAlive       wuint16\n\treceiveMax      wuint16\n\n\tsessionExpiryInterval wuint32\n\tmaxPacketSize         wuint32\n\n\twillDelayInterval wuint32\n\n\ttopicAliasMax       wuint16\n\trequestResponseInfo wbool\n\trequestProblemInfo  wbool\n\n\tprotocolName wstring\n\tclientID     wstring\n\tUserProperties\n\tauthMethod wstring\n\tauthData   bindata\n\n\tusername wstring\n\tpassword bindata\n\n\twill        *Publish\n\twillPayload bindata // as the one in Publish.payload is raw\n\t// what does it mean, raw?\n}\n\n// Connect fields are exposed using methods to simplify the type\n// conversion.\n\n// SetWill sets the will message. The Server delays publishing the\n// Client\u2019s Will Message until the Will Delay Interval has passed or\n// the Session ends, whichever happens first.\nfunc (p *Connect) SetWill(will *Publish) {\n\tp.will = will\n\tp.flags.toggle(WillFlag, true)\n\tp.flags.toggle(WillRetain, will.Retain())\n\tp.willPayload = bindata(will.payload)\n\tp.setWillQoS(will.QoS())\n}\n\nfunc (p *Connect) SetWillDelayInterval(delayInterval uint32) {\n\tp.willDelayInterval = wuint32(delayInterval)\n}\nfunc (p *Connect) WillDelayInterval() uint32 {\n\treturn uint32(p.willDelayInterval)\n}\n\n// Will returns the will publish message.\nfunc (p *Connect) Will() *Publish { return p.will }\n\nfunc (p *Connect) HasFlag(v byte) bool { return p.flags.Has(v) }\n\nfunc (p *Connect) SetCleanStart(v bool) { p.flags.toggle(CleanStart, v) }\nfunc (p *Connect) CleanStart() bool     { return p.flags.Has(CleanStart) }\n\nfunc (p *Connect) SetProtocolVersion(v uint8) { p.protocolVersion = wuint8(v) }\nfunc (p *Connect) ProtocolVersion() uint8     { return uint8(p.protocolVersion) }\n\nfunc (p *Connect) SetProtocolName(v string) { p.protocolName = wstring(v) }\nfunc (p *Connect) ProtocolName() string     { return string(p.protocolName) }\n\nfunc (p *Connect) SetClientID(v string) { p.clientID = wstring(v) }\nfunc (p *Connect) ClientID() string     { return string(p.clientID) }\n\nfunc (p *Connect) SetKeepAlive(v uint16) { p.keepAlive = wuint16(v) }\nfunc (p *Connect) KeepAlive() uint16     { return uint16(p.keepAlive) }\n\nfunc (p *Connect) setWillQoS(v uint8) {\n\tp.flags &= bits(^(WillQoS2 | WillQoS1)) // reset\n\tp.flags.toggle(v<<3, v < 3)\n}\nfunc (p *Connect) willQoS() uint8 {\n\treturn (uint8(p.flags) & (WillQoS2 | WillQoS1)) >> 3\n}\n\nfunc (p *Connect) SetSessionExpiryInterval(v uint32) {\n\tp.sessionExpiryInterval = wuint32(v)\n}\nfunc (p *Connect) SessionExpiryInterval() uint32 {\n\treturn uint32(p.sessionExpiryInterval)\n}\n\nfunc (p *Connect) SetReceiveMax(v uint16) { p.receiveMax = wuint16(v) }\nfunc (p *Connect) ReceiveMax() uint16     { return uint16(p.receiveMax) }\n\nfunc (p *Connect) SetMaxPacketSize(v uint32) { p.maxPacketSize = wuint32(v) }\nfunc (p *Connect) MaxPacketSize() uint32     { return uint32(p.maxPacketSize) }\n\n// This value indicates the highest value that the Client will accept\n// as a Topic Alias sent by the Server. The Client uses this value to\n// limit the number of Topic Aliases that it is willing to hold on\n// this Connection.\nfunc (p *Connect) SetTopicAliasMax(v uint16) {\n\tp.topicAliasMax = wuint16(v)\n}\nfunc (p *Connect) TopicAliasMax() uint16 { return uint16(p.topicAliasMax) }\n\n// The Client uses this value to request the Server to return Response\n// Information in the CONNACK\nfunc (p *Connect) SetRequestResponseInfo(v bool) {\n\tp.requestResponseInfo = wbool(v)\n}\nfunc (p *Connect) RequestResponseInfo() bool {\n\treturn bool(p.requestResponseInfo)\n}\n\n// The Client uses this value to indicate whether the ReasonString String or\n// User Properties are sent in the case of failures.\nfunc (p *Connect) SetRequestProblemInfo(v bool) {\n\tp.requestProblemInfo = wbool(v)\n}\nfunc (p *Connect) RequestProblemInfo() bool {\n\treturn bool(p.requestProblemInfo)\n}\n\nfunc (p *Connect) appendWillProperty(prop UserProp) {\n\tp.will.UserProperties = append(p.will.UserProperties, prop)\n}\n\nfunc (p *Connect) SetAuthMethod(v string) { p.authMethod = wstring(v) }\nfunc (p *Connect) AuthMethod() string     { return string(p.authMethod) }\n\nfunc (p *Connect) SetAuthData(v []byte) { p.authData = v }\nfunc (p *Connect) AuthData() []byte     { return p.authData }\n\nfunc (p *Connect) SetUsername(v string) {\n\tp.username = wstring(v)\n\tif len(v) == 0 {\n\t\tp.username = nil\n\t}\n\tp.flags.toggle(UsernameFlag, len(p.username) > 0)\n\n}\nfunc (p *Connect) Username() string { return string(p.username) }\n\nfunc (p *Connect) SetPassword(v []byte) {\n\tp.password = v\n\tp.flags.toggle(PasswordFlag, len(p.password) > 0)\n}\nfunc (p *Connect) Password() []byte { return p.password }\n\n// String returns a short string describing the connect packet.\nfunc (p *Connect) String() string {\n\treturn fmt.Sprintf(\"%s %s %s%v %s %s %v bytes\",\n\t\tfirstByte(p.fixed).String(), connectFlags(p.flags),\n\t\tp.protocolName,\n\t\tp.protocolVersion,\n\t\tp.ClientID(),\n\t\ttime.Duration(p.keepAlive)*time.Second,\n\t\tp.fill(_LEN, 0),\n\t)\n}\n\nfunc (p *Connect) dump(w io.Writer) {\n\t// collect the fields and hand them to w in one Write\n\td := &dumper{w: w}\n\td.val(\"AuthData\", p.AuthData())\n\td.val(\"AuthMethod\", p.AuthMethod())\n\td.val(\"CleanStart\", p.CleanStart())\n\td.val(\"ClientID\", p.ClientID())\n\td.val(\"KeepAlive\", p.KeepAlive())\n\td.val(\"MaxPacketSize\", p.MaxPacketSize())\n\td.quoted(\"Password\", masked(string(p.Password())))\n\td.val(\"ProtocolName\", p.ProtocolName())\n\td.val(\"ProtocolVersion\", p.ProtocolVersion())\n\td.val(\"ReceiveMax\", p.ReceiveMax())\n\td.val(\"RequestProblemInfo\", p.RequestProblemInfo())\n\td.val(\"RequestResponseInfo\", p.RequestResponseInfo())\n\td.val(\"SessionExpiryInterval\", p.SessionExpiryInterval())\n\td.val(\"TopicAliasMax\", p.TopicAliasMax())\n\td.text(\"Username\", masked(p.Username()))\n\td.flush()\n\n\tif p.will != nil {\n\t\tfmt.Fprintln(w, \"Will\")\n\t\tp.will.dump(w)\n\t}\n\n\tp.UserProperties.dump(w)\n}\n\n// masked hides v, the first letter is kept as a hint for whoever\n// reads the log.\nfunc masked(v string) string {\n\tif len(v) == 0 {\n\t\treturn \"\"\n\t}\n\treturn v[:1] + \"********\"\n}\n\n// dumper collects named fields as lines, flush writes them with one\n// call to Write.\ntype dumper struct {\n\tw  io.Writer\n\tsb strings.Builder\n}\n\n// val adds the field using the default format of v.\nfunc (d *dumper) val(name string, v interface{}) {\n\tfmt.Fprintf(&d.sb, \"%s: %v\\n\", name, v)\n}\n\n// text adds the field as is.\nfunc (d *dumper) text(name, v string) {\n\td.sb.WriteString(name)\n\td.sb.WriteString(\": \")\n\td.sb.WriteString(v)\n\td.sb.WriteByte('\\n')\n}\n\n// quoted adds the field as a double quoted string.\nfunc (d *dumper) quoted(name, v string) {\n\td.text(name, strconv.Quote(v))\n}\n\nfunc (d *dumper) flush() {\n\tfmt.Fprint(d.w, d.sb.String())\n\td.sb.Reset()"}}},
 		{Name: "rf7-reader-constructor", Silent: true, Edits: []Edit{{"auth.go", "\tb := &buffer{data: data}", "\tb := newBuffer(data)"}, {"buffer.go", "// getAny reads all properties from the current offset starting with\n// the variable length.  fields map property identity codes to wire\n// type fields and the addProp func is used for each user property.\nfunc (b *buffer) getAny(fields map[Ident]func() wireType, addProp func(UserProp)) {\n\tif b.atEnd() {\n\t\treturn\n\t}\n\tvar propLen vbint\n\tb.get(&propLen)\n\tend := b.i + int(propLen)\n\tvar id Ident\n\tfor b.i < end {\n\t\tb.get(&id)\n\t\t// first failure stops the parsing\n\t\tif b.err != nil {\n\t\t\treturn\n\t\t}\n\t\tfield, hasField := fields[id]\n\t\tif hasField {\n\t\t\tb.get(field())\n\t\t\tcontinue\n\t\t}\n\t\tswitch id {\n\t\tcase UserProperty:\n\t\t\tvar p UserProp\n\t\t\tb.get(&p)\n\t\t\taddProp(p)\n\n\t\tcase SubscriptionID:\n\t\t\tvar sub vbint\n\t\t\tb.get(&sub)\n\t\t\tif b.addSubscriptionID != nil {\n\t\t\t\tb.addSubscriptionID(uint32(sub))\n\t\t\t}\n\n\t\tdefault:\n\t\t\tb.err = fmt.Errorf(\"unknown property id 0x%02x\", id)\n\t\t}\n\t}\n}\n\nfunc (b *buffer) get(v wireType) {\n\tif b.err != nil {\n\t\treturn\n\t}\n\tif b.i >= len(b.data) {\n\t\tb.err = ErrMissingData\n\t\treturn\n\t}\n\tif b.err = v.UnmarshalBinary(b.data[b.i:]); b.err != nil {\n\t\treturn\n\t}\n\tn := v.width()\n\tif n > len(b.data)-b.i {\n\t\tb.err = ErrMissingData\n\t\treturn\n\t}\n\tb.i += n", "// newBuffer returns a buffer positioned at the start of data.\nfunc newBuffer(data []byte) *buffer {\n\treturn &buffer{data: data}\n}\n\n// getAny reads all properties from the current offset starting with\n// the variable length.  fields map property identity codes to wire\n// type fields and the addProp func is used for each user property.\nfunc (b *buffer) getAny(fields map[Ident]func() wireType, addProp func(UserProp)) {\n\tif b.atEnd() {\n\t\treturn\n\t}\n\tvar propLen vbint\n\tb.get(&propLen)\n\tend := b.i + int(propLen)\n\tvar id Ident\n\tfor b.i < end {\n\t\tb.get(&id)\n\t\t// first failure stops the parsing\n\t\tif b.err != nil {\n\t\t\treturn\n\t\t}\n\t\tfield, hasField := fields[id]\n\t\tif hasField {\n\t\t\tb.get(field())\n\t\t\tcontinue\n\t\t}\n\t\tswitch id {\n\t\tcase UserProperty:\n\t\t\tvar p UserProp\n\t\t\tb.get(&p)\n\t\t\taddProp(p)\n\n\t\tcase SubscriptionID:\n\t\t\tvar sub vbint\n\t\t\tb.get(&sub)\n\t\t\tif b.addSubscriptionID != nil {\n\t\t\t\tb.addSubscriptionID(uint32(sub))\n\t\t\t}\n\n\t\tdefault:\n\t\t\tb.fail(fmt.Errorf(\"unknown property id 0x%02x\", id))\n\t\t}\n\t}\n}\n\nfunc (b *buffer) get(v wireType) {\n\tif b.err != nil {\n\t\treturn\n\t}\n\trest := b.rest()\n\tif len(rest) == 0 {\n\t\tb.fail(ErrMissingData)\n\t\treturn\n\t}\n\tif err := v.UnmarshalBinary(rest); err != nil {\n\t\tb.fail(err)\n\t\treturn\n\t}\n\tn := v.width()\n\tif n > len(rest) {\n\t\tb.fail(ErrMissingData)\n\t\treturn\n\t}\n\tb.i += n\n}\n\n// rest returns the data not yet read.\nfunc (b *buffer) rest() []byte {\n\treturn b.data[b.i:]\n}\n\n// fail records err unless a previous failure is already recorded,\n// i.e. the first failure is the one reported.\nfunc (b *buffer) fail(err error) {\n\tif b.err == nil {\n\t\tb.err = err\n\t}"}, {"connack.go", "\tb := &buffer{data: data}", "\tb := newBuffer(data)"}, {"connect.go", "\tbuf := &buffer{data: data}", "\tbuf := newBuffer(data)"}, {"disconnect.go", "\tb := &buffer{data: data}", "\tb := newBuffer(data)"}, {"puback.go", "\tb := &buffer{data: data}", "\tb := newBuffer(data)"}, {"pubcomp.go", "\tb := &buffer{data: data}", "\tb := newBuffer(data)"}, {"pubrec.go", "\tb := &buffer{data: data}", "\tb := newBuffer(data)"}, {"pubrel.go", "\tb := &buffer{data: data}", "\tb := newBuffer(data)"}, {"suback.go", "\tb := &buffer{data: data}", "\tb := newBuffer(data)"}, {"subscribe.go", "\tb := &buffer{data: data}", "\tb := newBuffer(data)"}, {"unsuback.go", "\tb := &buffer{data: data}", "\tb := newBuffer(data)"}, {"unsubscribe.go", "\tb := &buffer{data: data}", "\tb := newBuffer(data)"}}},
 		{Name: "adv4-E-deferred-print-of-the-password", Rule: "R18.1", Where: "(*Connect).dump#deferred-call", Edits: []Edit{{"connect.go", "\tfmt.Fprintf(w, \"Password: %q\\n\", stars(len(p.Password())))\n", "\tdefer fmt.Fprintf(w, \"Password: %q\\n\", p.Password())\n"}}},
 		{Name: "deferred-dump-of-the-user-properties", Silent: true, Edits: []Edit{{"connect.go", "\tp.UserProperties.dump(w)\n}\n\nfunc stars", "\tdefer p.UserProperties.dump(w)\n}\n\nfunc stars"}}},
@@ -113,6 +115,13 @@ func baseObject(v ssa.Value) ssa.Value {
 			switch r := fieldRoot(x).(type) {
 			case *ssa.Alloc, *ssa.MakeSlice:
 				return r
+			case *ssa.Parameter:
+				// a field of a helper object handed in (a `*dumper` with a builder inside): the whole object, so that
+				// what one method writes into it is what another method reads — but not for the packet itself, whose
+				// credential fields are told apart from its other fields
+				if !holdsCredentials(r.Type()) {
+					return r
+				}
 			case *ssa.Call:
 				if bi, ok := r.Call.Value.(*ssa.Builtin); ok && bi.Name() == "append" {
 					return r
@@ -128,6 +137,25 @@ func baseObject(v ssa.Value) ssa.Value {
 		}
 	}
 	return v
+}
+
+// holdsCredentials: t is (a pointer to) a type with a Password method — the packet type whose fields are tracked one
+// by one.
+func holdsCredentials(t types.Type) bool {
+	if pt, ok := t.Underlying().(*types.Pointer); ok {
+		t = pt.Elem()
+	}
+	nt, ok := types.Unalias(t).(*types.Named)
+	if !ok {
+		return false
+	}
+	ms := types.NewMethodSet(types.NewPointer(nt))
+	for i := 0; i < ms.Len(); i++ {
+		if ms.At(i).Obj().Name() == "Password" {
+			return true
+		}
+	}
+	return false
 }
 
 // fieldRoot: the object a chain of field/element addresses starts from.
